@@ -135,8 +135,8 @@ Flush(a) ==
     /\ Step(a, "fflush", TRUE)
     /\ UNCHANGED <<of, wr, loc, out, holder, faults>>
 
-FlushFail(a) ==                            \* close() raises before the rename; the handle is
-    /\ \/ pc[a] = "open" /\ wr[a] = of[a]  \* finalised later (__del__ -> abort)
+FlushFail(a) ==                            \* close() raises before the rename; its finally
+    /\ \/ pc[a] = "open" /\ wr[a] = of[a]  \* clause runs abort()
        \/ pc[a] = "closing"
     /\ CanFail /\ Fail
     /\ pc' = [pc EXCEPT ![a] = "aborting"]
@@ -163,7 +163,7 @@ CloseFd(a) ==                              \* fsync is optional (GitFile(fsync=F
     /\ Step(a, "fclose", TRUE)
     /\ UNCHANGED <<lck, tgt, of, wr, buf, loc, out, holder, faults>>
 
-CloseFdFail(a) ==                          \* close() raises before the rename; finalised later
+CloseFdFail(a) ==                          \* close() raises before the rename; finally: abort()
     /\ pc[a] \in {"c_flushed", "c_synced"} /\ CanFail /\ Fail
     /\ pc' = [pc EXCEPT ![a] = "aborting"]
     /\ out' = [out EXCEPT ![a] = "failed"]
@@ -220,19 +220,14 @@ AbortUnlink(a) ==
     /\ Step(a, "unlink", lck.w # None)
     /\ UNCHANGED <<of, wr, buf, out, faults>>
 
-\* abort() itself fails: _closed stays False and the finaliser (__del__) runs abort() again
+\* abort(): closing the underlying file fails (buffered data cannot be flushed); the lock
+\* file is removed all the same (finally).  A failing os.remove itself is not modelled: no
+\* implementation can release a lock it is not allowed to unlink.
 AbortCloseFdFail(a) ==
     /\ pc[a] \in {"open", "aborting"} /\ CanFail /\ Fail
-    /\ pc' = [pc EXCEPT ![a] = "aborting"]
-    /\ out' = [out EXCEPT ![a] = "failed"]
-    /\ Step(a, "fclose", FALSE)
-    /\ UNCHANGED <<lck, tgt, of, wr, buf, loc, holder>>
-
-UnlinkFail(a) ==
-    /\ pc[a] \in {"x_closed", "c_cleanup"} /\ CanFail /\ Fail
     /\ pc' = [pc EXCEPT ![a] = "x_closed"]
     /\ out' = [out EXCEPT ![a] = "failed"]
-    /\ Step(a, "unlink", FALSE)
+    /\ Step(a, "fclose", FALSE)
     /\ UNCHANGED <<lck, tgt, of, wr, buf, loc, holder>>
 
 Return(a) ==
@@ -248,7 +243,7 @@ ActorNext(a) ==
     \/ Flush(a) \/ FlushFail(a) \/ Fsync(a) \/ FsyncFail(a) \/ CloseFd(a)
     \/ Replace(a) \/ ReplaceEnoent(a) \/ ReplaceFail(a) \/ Cleanup(a)
     \/ AbortCloseFd(a) \/ AbortUnlink(a) \/ Return(a)
-    \/ CloseFdFail(a) \/ AbortCloseFdFail(a) \/ UnlinkFail(a)
+    \/ CloseFdFail(a) \/ AbortCloseFdFail(a)
 
 Next == \E a \in Actors : ActorNext(a)
 
